@@ -346,6 +346,15 @@ def enumerate_cases(tier, seed):
                 for ls in itertools.combinations(ml, 3):
                     for n_best in (1, 2):
                         cases.append({"selector": selector, "target": target, "qcols": [], "lcols": list(ls), "n_best": n_best, "thresh_corr": 1, "measures": ["cramerv", "tschuprowt"]})
+            # correlated cluster with a feature ranked in between (first > second > shadow of first), every column order
+            for perm in itertools.permutations(["qe0", "qe56", "qe012"]):
+                for tc in (0.45, 0.75):
+                    for lf in ("tschuprowt", "cramerv") if tier != "quick" else ("tschuprowt",):
+                        cases.append({"selector": selector, "target": target, "qcols": [], "lcols": list(perm), "n_best": 3, "thresh_corr": tc, "lfilter": lf})
+            if selector == "classification":
+                for perm in itertools.permutations(["clfirst", "clsecond", "clshadow"]):
+                    for qf in ("spearman", "pearson"):
+                        cases.append({"selector": selector, "target": target, "qcols": list(perm), "lcols": [], "n_best": 3, "thresh_corr": 0.6, "qfilter": qf})
             # colsample < 1: every outcome of shuffle (explored through the seam)
             for qs in qsets[:: 9 if tier == "quick" else 4]:
                 for n_best in (2, 3):
